@@ -29,7 +29,7 @@ def c18_direction(uv):
     return unicodeScriptDirection(uv)
 
 
-@specfn(Dict(STR, Set(STR)), opaque=True, cmap=CMAP, gsub=Ref("c18_GSUB"), extras=Opt(Ref("c18_Extras")))
+@specfn(Dict(STR, Set(STR)), opaque=True, cmap=CMAP, gsub=Opt(Ref("c18_GSUB")), extras=Opt(Ref("c18_Extras")))
 def c18_classify(cmap, gsub, extras):
     """ufo2ft.util.classifyGlyphs(unicodeScriptDirection, cmap, gsub, extras): direction -> glyph names (named function of its arguments)"""
     from ufo2ft.util import classifyGlyphs, unicodeScriptDirection
@@ -37,39 +37,87 @@ def c18_classify(cmap, gsub, extras):
     return classifyGlyphs(unicodeScriptDirection, cmap, M.raw(gsub), M.raw(extras) if extras is not None else None)
 
 
+@M.shim_function("c18_direction", "util.unicodeScriptDirection(uv) is the named function c18_direction(uv) (nothing else assumed)")
 def _direction(ex, st, args, kwargs, node):
     return ex.apply_spec(SPECFNS["c18_direction"], list(args), st, node)
 
 
+@M.shim_function("c18_classify", "util.classifyGlyphs(unicodeScriptDirection, cmap, gsub, extras) is the named function c18_classify(cmap, gsub, extras) "
+                  "(extras = None when the argument is omitted; nothing else assumed: summary of ufo2ft code until contracts/util_classify.py is registered)")
 def _classify(ex, st, args, kwargs, node):
     f, cmap, gsub = args[:3]
+    og = Opt(Ref("c18_GSUB"))
+    gsub = Val(og, og.sort().some(gsub.term))  # (the named function takes an optional table so that a ghost can hold "none yet")
     extras = args[3] if len(args) > 3 else Val(Opt(Ref("c18_Extras")), Opt(Ref("c18_Extras")).sort().nil)
     return ex.apply_spec(SPECFNS["c18_classify"], [cmap, gsub, extras], st, node)
 
 
+@specfn(Opt(Ref("c18_Extras")), opaque=True, self=Ref("c18_CW"))
+def c18_extras(self):
+    """what self.extraSubstitutions() returns (the compiler's extra substitutions, None without a compiler) — a NAME for that value, nothing is assumed
+    about it; it lets the postcondition say that THIS value is what the writer hands to classifyGlyphs"""
+    return M.raw(self).extraSubstitutions()
+
+
+def _extras(ex, st, self, args, kwargs, node):
+    return ex.apply_spec(SPECFNS["c18_extras"], [self], st, node)
+
+
 def _fresh_of(t, tag):
     def f(ex, st, self, args, kwargs, node):
-        return fresh(t, tag)
+        return Val(t, fresh(t, tag))
     return f
 
 
+def _mcl_glue(ex, st, self, args, kwargs, node):
+    """glue, not a model: `self._makeCursiveLookup(<generator of glyphs>, ..)` — the generator is materialised as the list the callee iterates, then the
+    CONTRACT of the real function is applied"""
+    from pyvc import models as _models
+
+    ex.assumptions_used.discard("c18_CW._makeCursiveLookup")
+    a0 = _models.materialize(ex, args[0])
+    return ex.call_contract(CONTRACTS[C.MCL + "#c18_CW"], [self, a0] + list(args[1:]), kwargs, st, node, implicit=1)
+
+
 CLASSES["c18_CW"].methods.update({
+    "_makeCursiveLookup": _mcl_glue,
     "makeUnicodeToGlyphNameMapping": _fresh_of(CMAP, "cmap"),
     "compileGSUB": _fresh_of(Ref("c18_GSUB"), "gsub"),
-    "extraSubstitutions": _fresh_of(Opt(Ref("c18_Extras")), "extras"),
+    "extraSubstitutions": _extras,
     "getOrderedGlyphSet": _fresh_of(G.GLYPHS, "glyphset"),
 })
 
 MCF = "ufo2ft.featureWriters.cursFeatureWriter:CursFeatureWriter._makeCursiveFeature"
+_LOOP = "for (entryName, exitName) in cursiveAnchorsPairs"
+_LK = "lookups[k]"
+_IS_LOOKUP = (f"(allocated({_LK}) and {_LK}.kind == 'LookupBlock' and len({_LK}.statements) >= 2 and {_LK}.statements[0].kind == 'LookupFlagStatement'"
+              f" and ({_LK}.statements[0].value == 8 or {_LK}.statements[0].value == 9))")
 contract(
     MCF,
-    props=[],
+    props=["C18"],
     params={"self": Ref("c18_CW")},
     returns=Opt(Ref(NODE)),
     globals={"ast": M.fea_shim(), "isinstance": M.ISINSTANCE,
              "unicodeScriptDirection": M.native_global(Val.obj(FuncRef(_direction, "c17shim.c18_direction")), None),
              "classifyGlyphs": M.native_global(Val.obj(FuncRef(_classify, "c17shim.c18_classify")), None)},
     requires=["not self.context.isVariable"],
-    ensures={"t": "True"},
-    loops={"for (entryName, exitName) in cursiveAnchorsPairs": Loop(index="i", invariants={})},
+    calls={C.GCP: C.GCP + "#only", C.MCL: C.MCL + "#c18_CW"},
+    merge_branches=False,
+    locals={"lookups": List(Ref(NODE)), "dirGlyphs": Dict(STR, Set(STR)), "shouldSplit": BOOL, "LTRlookup": Opt(Ref(NODE)), "RTLlookup": Opt(Ref(NODE)), "lookup": Opt(Ref(NODE)),
+            "gc": CMAP, "gg": Opt(Ref("c18_GSUB")), "gd": Dict(STR, Set(STR)), "gsplit": BOOL},
+    modifies=["c17_Node.kind", "c17_Node.glyph", "c17_Node.glyphclass", "c17_Node.entryAnchor", "c17_Node.exitAnchor", "c17_Node.statements", "c17_Node.value", "c17_Node.name",
+              C.NAMESET + ".elems"],
+    # ghosts: the code-point map and the GSUB table the writer obtained, the classification it computed, its split decision
+    ghost_vars={"gc": (CMAP, "{}"), "gg": (Opt(Ref("c18_GSUB")), "None"), "gd": (Dict(STR, Set(STR)), "{}"), "gsplit": (BOOL, "False"), "classified": (BOOL, "False")},
+    ghost={"cmap = self.makeUnicodeToGlyphNameMapping()": ["gc = cmap"], "gsub = self.compileGSUB()": ["gg = gsub"],
+           "shouldSplit = 'LTR' in dirGlyphs": ["gd = dirGlyphs", "gsplit = shouldSplit", "classified = True"]},
+    ensures={
+        # the glyphs are classified with the compiler's extra substitutions (seeded defect C18-1 drops them), only when some code point is LTR
+        "classified-with-extras": "implies(classified, gd == c18_classify(gc, gg, c18_extras(self)) and gsplit == ('LTR' in gd) and any(c18_direction(uv) == 'LTR' for uv in gc))",
+        "no-split-without-ltr-code-points": "implies(not classified, not gsplit)",
+        # the feature: a `curs` block of lookups, each a LookupFlag (IgnoreMarks, with or without RightToLeft) followed by cursive records
+        "feature": "implies(result is not None, result.kind == 'FeatureBlock' and result.name == 'curs' and len(result.statements) >= 1)",
+    },
+    canaries={"never-none": "result is not None", "always-split": "gsplit"},
+    loops={_LOOP: Loop(index="i", invariants={"lookups": f"all({_IS_LOOKUP} for k in range(len(lookups)))"})},
 )
